@@ -15,17 +15,17 @@ import (
 func init() { register("C33", "exploration", runC33) }
 
 func runC33(c *ev.Ctx) {
-	c.Rule = "a bootstrapped instance gives a live epoch database (roots are registered from frame 2 upward so that a restart's Bootstrap, which replays known roots from frame 1, stays passive); the check then drives its *abft.Store directly with random sequences of 80 operations: AddRoot(selfParentFrame, event) with synthetic events of 4 creators (several roots per creator and frame = fork roots, registrations spanning 1..4 frames), one sequence in eight once puts 101-160 roots into a single frame; GetFrameRoots(f) for populated, empty and future frames, epoch switches by Reset (to the next epoch number, or to the same or an earlier number again; the harness keeps epoch databases like on-disk databases named after the epoch, so only Drop removes their content), and restarts (new Store over copies of the databases, possibly with another cache configuration); cache configurations RootsNum x RootsFrames from {0,1,2,3,100}^2. " +
+	c.Rule = "a bootstrapped instance gives a live epoch database (roots are registered from frame 2 upward so that a restart's Bootstrap, which replays known roots from frame 1, stays passive); the check then drives its *abft.Store directly with random sequences of 80 operations: AddRoot(selfParentFrame, event) with synthetic events of 4 creators (several roots per creator and frame = fork roots, registrations spanning 1..4 frames), one sequence in eight once puts 101-160 roots into a single frame; GetFrameRoots(f) for populated, empty and future frames, epoch switches by Reset (to the next epoch number, or to the same or an earlier number again; the harness keeps epoch databases like on-disk databases named after the epoch, so only Drop removes their content), and restarts (new Store over copies of the databases, possibly with another cache configuration); cache configurations RootsNum x RootsFrames from {0,1,2,3,100,1000}^2 (every second bulk registration goes into a frame that was queried just before, so with RootsNum=1000 the cached list itself grows past 100 entries). " +
 		"Plus consensus-made switches: small real DAGs sealed by EndBlock at frame 1..3; right after the sealing Process call frames 0..8 of the new epoch are empty, afterwards each frame holds exactly the roots implied by the new epoch's events. Oracle: the returned slice, as a set of (creator, id), equals the model's set for that frame; every entry carries the queried frame; no entry twice; after an epoch switch every frame is empty. " +
 		"non-trivial = distinct sequences in which a frame was queried, then received another root (also through a multi-frame registration), then was queried again, with a cache smaller than the number of roots or frames in play"
 	c.Assumptions = []string{"each (event, frame) is registered once, as the orderer does", "AddRoot/GetFrameRoots are used from one goroutine (documented as not thread-safe)"}
 	c.Parallel(c.Pick(400, 8000), 0, func(i int) { c33Sealed(c, i) })
 	n := c.Pick(6000, 200000)
-	sizes := []int{0, 1, 2, 3, 100}
+	sizes := []int{0, 1, 2, 3, 100, 1000} // 1000 x 100 is the library's default: only there does a list of 100+ roots stay cached
 	c.Parallel(n, 0, func(i int) {
 		r := c.Rand("seq", i)
 		mkCfg := func() *abft.StoreConfig {
-			return &abft.StoreConfig{Cache: abft.StoreCacheConfig{RootsNum: uint(sizes[r.Intn(5)]), RootsFrames: sizes[r.Intn(5)]}}
+			return &abft.StoreConfig{Cache: abft.StoreCacheConfig{RootsNum: uint(sizes[r.Intn(len(sizes))]), RootsFrames: sizes[r.Intn(len(sizes))]}}
 		}
 		scfg := mkCfg()
 		ids := []idx.ValidatorID{1, 2, 3, 4}
@@ -50,6 +50,12 @@ func runC33(c *ev.Ctx) {
 			if op == bulkAt {
 				sp := idx.Frame(1 + r.Intn(5))
 				cnt := 101 + r.Intn(60)
+				if r.Intn(2) == 0 { // the frame's list is in the cache (if the cache is large enough) while it grows past 100 entries
+					log = append(log, fmt.Sprintf("GetFrameRoots(%d) [warm-up, result not compared]", sp+1))
+					in.Store.GetFrameRoots(sp + 1)
+					queried[sp+1] = true
+					c.Count("bulk_registrations_into_a_cached_frame", 1)
+				}
 				log = append(log, fmt.Sprintf("AddRoot x%d (sp=%d, frame=%d)", cnt, sp, sp+1))
 				for q := 0; q < cnt; q++ {
 					e := &cons.Ev{}
